@@ -7,7 +7,10 @@
 (* stream.  Supported(proto, field, class) is the documented field set of  *)
 (* each protocol; a vector inside it must round-trip field by field, keep  *)
 (* frame sync in a stream of three back-to-back frames and report a size   *)
-(* that does not depend on the preceding traffic.                          *)
+(* that does not depend on the preceding traffic.  The receiver decodes    *)
+(* every stream twice: into fresh message objects, and into ONE message    *)
+(* object that is Reset between frames after it has received an unrelated  *)
+(* "primer" frame (what a session's reader does with pooled messages).     *)
 (***************************************************************************)
 EXTENDS Naturals, Sequences, FiniteSets, TLC, Json, IOUtils
 CONSTANTS Export, K
@@ -17,7 +20,7 @@ Classes == [ seq    |-> {"one", "zero", "neg1", "max", "min"},
              mtype  |-> {"1", "2", "3"},
              method |-> {"short", "empty", "len255", "special", "utf8"},
              status |-> {"nil", "code", "full", "special", "neg", "maxcode"},
-             meta   |-> {"none", "one", "repeated", "emptyval", "special", "big"},
+             meta   |-> {"none", "one", "repeated", "emptyval", "emptylast", "special", "big"},
              codec  |-> {"j", "s", "nil0", "p"},
              body   |-> {"b1", "empty", "b255", "b256", "b65535", "quotes", "backslash", "control", "nonutf8"},
              pipe   |-> {"none", "g", "m", "gm"} ]
